@@ -126,17 +126,18 @@ class Statement(object):
                 self.comment = data.group("comment")
                 raise ParseError("[{}] invalid mnemonic".format(self.mnemonic), line)
             if self.instruction.is_string_define:
-                original_operand = data.group("operands")
-                if data.group("comment"):
-                    original_operand = "{} {}".format(data.group("operands"), data.group("comment").strip())
-                starting_symbol = original_operand[0]
-                ending_location = original_operand.find(starting_symbol, 1)
+                # The string is everything between the delimiter and its next occurrence, taken verbatim
+                # from the line: it may hold blanks, semicolons and characters no other operand can
+                original_operand = line[data.end("mnemonic"):].strip()
+                ending_location = original_operand.find(original_operand[0], 1) if original_operand else -1
+                if ending_location < 1:
+                    raise ParseError("string is not enclosed in a matching pair of delimiters", line)
                 self.operand = Operand.create_from_str(
-                    original_operand[0:ending_location + 1].strip(),
+                    original_operand[0:ending_location + 1],
                     self.instruction
                 )
                 self.original_operand = copy(self.operand)
-                self.comment = original_operand[ending_location + 2:].strip() or ""
+                self.comment = original_operand[ending_location + 1:].strip().lstrip(";").strip() or ""
                 self.is_empty = False
             else:
                 try:
